@@ -24,24 +24,31 @@ def paySpecOK (ty : TokenType) : PaySpec → Bool
   | .float b => payKindOK ty (.float b)
   | .reg => isStrTy ty && payKindOK ty .none
 
-/-- what an emit site owes: channel table and payload-kind table -/
-def tokOK (ch : Channel) (ty : TokenType) (p : PaySpec) : Bool := chanOK ch ty && paySpecOK ty p
+/-- what an emit site owes: channel table, payload-kind table, and — third table — no `MacroSep` unless the build
+has the `macro_sep` feature (`sep`) -/
+def tokOK (sep : Bool) (ch : Channel) (ty : TokenType) (p : PaySpec) : Bool :=
+  chanOK ch ty && paySpecOK ty p && (ty != .MacroSep || sep)
+
+theorem tokOK_mono {sep : Bool} {ch : Channel} {ty : TokenType} {p : PaySpec} (h : tokOK false ch ty p = true) :
+    tokOK sep ch ty p = true := by
+  simp only [tokOK, Bool.and_eq_true, Bool.or_false] at h ⊢
+  exact ⟨h.1, by simp [h.2]⟩
 
 /-- a type that may appear on the default channel without payload -/
-def plainTy (ty : TokenType) : Bool := tokOK .DEFAULT ty .none
+def plainTy (ty : TokenType) : Bool := tokOK false .DEFAULT ty .none
 
 /-- retyping keeps the payload: both types must accept the same kinds -/
 def sameKinds (e n : TokenType) : Bool :=
   isStrTy e == isStrTy n && isIntTy e == isIntTy n && isFloatTy e == isFloatTy n
 
 def modeOK : Mode → Prop
-  | .expectSymbol ty ch => tokOK ch ty .none = true
+  | .expectSymbol ty ch => tokOK false ch ty .none = true
   | _ => True
 
-def cOkCh : Op → Prop
-  | .emitToken ch ty p => tokOK ch ty p = true
-  | .emitTokenAtMark ch ty p => tokOK ch ty p = true
-  | .updateLastToken ch ty p => tokOK ch ty p = true
+def cOkCh (sep : Bool) : Op → Prop
+  | .emitToken ch ty p => tokOK sep ch ty p = true
+  | .emitTokenAtMark ch ty p => tokOK sep ch ty p = true
+  | .updateLastToken ch ty p => tokOK sep ch ty p = true
   | .retypeLastDefault e n => plainTy n = true ∧ sameKinds e n = true
   | .pushMode m => modeOK m
   | .modifyTop f => ∀ m, modeOK m → modeOK (f m)
@@ -54,41 +61,41 @@ def respOK : (o : Op) → Resp o → Prop
   | .popModeRaw, m => ∀ x, m = some x → modeOK x
   | _, _ => True
 
-def ChanR {α : Type} : Prog α → (α → Prop) → Prop
+def ChanR (sep : Bool) {α : Type} : Prog α → (α → Prop) → Prop
   | .ret a, Q => Q a
-  | .op o k, Q => cOkCh o ∧ ∀ r, respOK o r → ChanR (k r) Q
+  | .op o k, Q => cOkCh sep o ∧ ∀ r, respOK o r → ChanR sep (k r) Q
 
 namespace ChanR
-variable {α β : Type}
+variable {α β : Type} {sep : Bool}
 
 theorem op_iff {o : Op} {k : Resp o → Prog α} {Q : α → Prop} :
-    ChanR (Prog.op o k) Q ↔ cOkCh o ∧ ∀ r, respOK o r → ChanR (k r) Q := Iff.rfl
+    ChanR sep (Prog.op o k) Q ↔ cOkCh sep o ∧ ∀ r, respOK o r → ChanR sep (k r) Q := Iff.rfl
 
-theorem mono {p : Prog α} {Q Q' : α → Prop} (hQ : ∀ a, Q a → Q' a) : ChanR p Q → ChanR p Q' := by
+theorem mono {p : Prog α} {Q Q' : α → Prop} (hQ : ∀ a, Q a → Q' a) : ChanR sep p Q → ChanR sep p Q' := by
   induction p with
   | ret a => exact hQ a
   | op o k ih => intro h; exact ⟨h.1, fun r hr => ih r (h.2 r hr)⟩
 
 theorem bind_iff {p : Prog α} {f : α → Prog β} {Q : β → Prop} :
-    ChanR (p >>= f) Q ↔ ChanR p (fun a => ChanR (f a) Q) := by
+    ChanR sep (p >>= f) Q ↔ ChanR sep p (fun a => ChanR sep (f a) Q) := by
   induction p with
   | ret a => exact Iff.rfl
   | op o k ih =>
-    show ChanR (Prog.op o fun r => k r >>= f) Q ↔ _
+    show ChanR sep (Prog.op o fun r => k r >>= f) Q ↔ _
     rw [op_iff, op_iff]
     constructor
     · intro h; exact ⟨h.1, fun r hr => (ih r).1 (h.2 r hr)⟩
     · intro h; exact ⟨h.1, fun r hr => (ih r).2 (h.2 r hr)⟩
 
-theorem pure_iff {a : α} {Q : α → Prop} : ChanR (pure a : Prog α) Q ↔ Q a := Iff.rfl
-theorem ret_iff {a : α} {Q : α → Prop} : ChanR (Prog.ret a) Q ↔ Q a := Iff.rfl
+theorem pure_iff {a : α} {Q : α → Prop} : ChanR sep (pure a : Prog α) Q ↔ Q a := Iff.rfl
+theorem ret_iff {a : α} {Q : α → Prop} : ChanR sep (Prog.ret a) Q ↔ Q a := Iff.rfl
 
 theorem ite_iff {c : Prop} [Decidable c] {p q : Prog α} {Q : α → Prop} :
-    ChanR (if c then p else q) Q ↔ if c then ChanR p Q else ChanR q Q := by
+    ChanR sep (if c then p else q) Q ↔ if c then ChanR sep p Q else ChanR sep q Q := by
   split <;> rfl
 
 theorem perform_iff {o : Op} {Q : Resp o → Prop} :
-    ChanR (Prog.perform o) Q ↔ cOkCh o ∧ ∀ r, respOK o r → Q r := Iff.rfl
+    ChanR sep (Prog.perform o) Q ↔ cOkCh sep o ∧ ∀ r, respOK o r → Q r := Iff.rfl
 
 attribute [chan_simp] op_iff bind_iff pure_iff ret_iff ite_iff perform_iff
 
@@ -100,9 +107,9 @@ theorem ite_intro {c : Prop} [Decidable c] {a b : Prop} (ht : c → a) (he : ¬c
 end ChanR
 
 /-- programs that obey the channel table, whatever they return -/
-def Chan {α : Type} (p : Prog α) : Prop := ChanR p (fun _ => True)
+def Chan (sep : Bool) {α : Type} (p : Prog α) : Prop := ChanR sep p (fun _ => True)
 
-theorem Chan.use {α : Type} {p : Prog α} (h : Chan p) {Q : α → Prop} (hQ : ∀ a, Q a) : ChanR p Q :=
+theorem Chan.use {sep : Bool} {α : Type} {p : Prog α} (h : Chan sep p) {Q : α → Prop} (hQ : ∀ a, Q a) : ChanR sep p Q :=
   ChanR.mono (fun a _ => hQ a) h
 
 attribute [irreducible] ChanR
@@ -117,7 +124,9 @@ macro_rules
       | (first $[| apply $ls]*)
       | trivial
       | (show chanOK _ _ = true; decide)
-      | (show tokOK _ _ _ = true; decide)
+      | (show tokOK _ _ _ _ = true; rfl)
+      | (apply tokOK_mono; assumption)
+      | (show tokOK _ _ _ _ = true; decide)
       | (show sameKinds _ _ = true; decide)
       | (show plainTy _ = true; decide)
       | refine ⟨?_, ?_⟩
